@@ -4,6 +4,7 @@ package main
 
 import (
 	"context"
+	"encoding/base64"
 	"fmt"
 	"sync"
 	"time"
@@ -38,6 +39,10 @@ func vfFreeRun(w *vfWorld, prop string) {
 		cfg.CSRFPerRequest = t.Bool("free.perreq")
 		cfg.EncodeState = t.Bool("free.encode")
 		cfg.PKCE = vfPick(t, "free.pkce", []string{"", "S256", "plain"})
+	}
+	if prop == "C07" {
+		// headers derived per request from the session: nothing may be shared between the requests of different users
+		cfg.Extra = append(cfg.Extra, "--pass-basic-auth=true", "--basic-auth-password=b4sic-pw", "--set-basic-auth=true", "--set-xauthrequest=true", "--pass-access-token=true", "--pass-user-headers=true")
 	}
 	cfg.Mut = vfExposeAll
 	idp := w.StartIdP()
@@ -99,6 +104,19 @@ func vfFreeRun(w *vfWorld, prop string) {
 		}
 		if got := r.UpHits[0].Get("X-S-User"); got != "sub-"+c.user {
 			c.errs = append(c.errs, fmt.Sprintf("%s: the browser of %s loaded the session of %q", what, c.user, got))
+		}
+		if prop == "C07" {
+			h := r.UpHits[0]
+			wantBasic := "Basic " + base64.StdEncoding.EncodeToString([]byte("sub-"+c.user+":b4sic-pw"))
+			if got := h.Get("Authorization"); got != wantBasic {
+				c.errs = append(c.errs, fmt.Sprintf("%s: the upstream saw Authorization %q for the request of %s (want %q)", what, got, c.user, wantBasic))
+			}
+			if got := h.Get("X-Forwarded-User"); got != "sub-"+c.user {
+				c.errs = append(c.errs, fmt.Sprintf("%s: the upstream saw X-Forwarded-User %q for the request of %s", what, got, c.user))
+			}
+			if got := h.Get("X-Forwarded-Email"); got != c.user+"@example.com" && !(c.user == "bob" && got == "bob@other.org") {
+				c.errs = append(c.errs, fmt.Sprintf("%s: the upstream saw X-Forwarded-Email %q for the request of %s", what, got, c.user))
+			}
 		}
 	}
 	// round 1: everybody logs in at once (sessions of different sizes are encoded concurrently)
